@@ -127,7 +127,7 @@ def handshake_guards(ctx, cfg, name, guards, want_turn):
            "all %d effectful blocks run only after my_turn == %s and position < len were established" % (n_eff, want_turn) if not bad
            else "block bb%d writes %s before the guards (turn checked=%s, finished checked=%s)" % (bad[0][0], bad[0][3], bad[0][1], bad[0][2]),
            where(fn, fn.blocks[bad[0][0]]["term"]) if bad else where(fn), cfg)
-    ctx.floor("guards-before-effects", n_eff, 10, cfg)
+    ctx.floor("guards-before-effects", n_eff, 5, cfg)  # blocks, not sites: merged arms legitimately lower the count
     # converse of the error exits: with the bad condition established no Ok exit is reachable
     from .common import ret_ok_sites
     oks = [b for b, s in ret_ok_sites(fn)]
